@@ -33,8 +33,8 @@ CLAIMS.update({
    text="Exact contracts of _add_linear, _add_log16, _add_log8, _log_counter, _rand, _counter2value and the three _query kernels are proved from the typed IR; lemmas derive each clause of the statement (key estimate = min(old+v, ceiling); log counter advances 0..v and exactly v in the reserved range; no other estimate decreases or ends above max(own old, key's new); at most one counter per row changes; n_added grows by v) for every state satisfying the shape invariant."),
  "C06": dict(level=PROOF, ref="DESIGN.md 4 (C06)", technique=TECH, note=KERNEL_NOTE + " float64 treated as real; POW axiom instances b^0=1, b^1=b, b^(x+1)=b*b^x, b^-x*b^x=1; uniformity of numpy's generators assumed. Float rounding at the decision boundary and the log merges' rounding branch are covered only by bounded stand-ins (every counter value x configuration grid x draws below/at/above the boundary).",
    text="_log_counter's one-step law (advance iff draw < base^-(c-nr), the draw being the value _rand hands out; exact while below num_reserved; absorbing ceiling), _rand's pointer/refill contract and the add kernels are proved from the typed IR over reals; lemmas prove decode is the identity up to num_reserved+1, the decoded value rises by base^(c-nr) so probability*rise = 1 (unbiased), and the lower bound counter >= min(f, num_reserved+1) is preserved by adds."),
- "C09": dict(level=PROOF, ref="DESIGN.md 4 (C09)", technique=TECH, note=KERNEL_NOTE + " Log merges: reserved-range and saturation clauses, counters, frame and parallel row-disjointness are proved over reals; the rounding branch (nearest decoded counter) is NOT proved - it is covered by the bounded float stand-in (log8: all 256x256 pairs per configuration; log16: all counters vs empty + sampled pairs).",
-   text="_merge_linear is proved to be the cell-wise saturating sum with the other operand unchanged and counters summed (nested loop invariants, parallel-loop frame obligations); lemmas give commutativity, identity of the empty sketch, merged >= each input and merged estimate >= min(sum of estimates, ceiling). _merge_log16/_merge_log8 are proved for the reserved range (exact sum), saturation at max_count, counters and frame."),
+ "C09": dict(level=PROOF, ref="DESIGN.md 4 (C09)", technique=TECH, note=KERNEL_NOTE + " Log merges are proved over REALS (ln / pow uninterpreted, law instances at the current cell assumed; requires 'the ceiling decodes to max_count', assumed from _find_base); float64 rounding is covered only by the bounded float stand-in (log8: all 256x256 pairs per configuration; log16: all counters vs empty + sampled pairs).",
+   text="_merge_linear is proved to be the cell-wise saturating sum with the other operand unchanged and counters summed (nested loop invariants, parallel-loop frame obligations); lemmas give commutativity, identity of the empty sketch, merged >= each input and merged estimate >= min(sum of estimates, ceiling). _merge_log16/_merge_log8 are proved cell by cell: exact sum in the reserved range, the maximum counter once the sum reaches max_count, otherwise the nearer of the two consecutive counters bracketing the decoded sum (ties down); counters summed, other operand unchanged; lemmas: ratio test = nearest, merged counter >= each input."),
  "C18": dict(level=PROOF, ref="DESIGN.md 4 (C18)", technique=TECH, note=KERNEL_NOTE + " The constructor clause (accepted configuration => ceiling decodes to max_count, else ValueError) depends on _find_base, 200 float Newton steps outside the verifier's reach: bounded grid stand-in only. Log merges at the ceiling: saturation clause proved over reals + bounded float stand-in.",
    text="Bit-precise VCs of _add_linear/_merge_linear (no wrap: uint_maxval - count, min_count + value, 64->32 bit stores), _log_counter/_add_log*/_merge_log* (absorbing ceiling) and heavy-hitter _add/_merge (clamping match branch) are proved; lemmas show a key at the ceiling stays there under any add or merge, no add or merge lowers a counter or estimate, and a heavy-hitter count that fills its cell alone only grows and clamps."),
 })
